@@ -1477,6 +1477,67 @@ def M_guard_deref(it, ctx, args, st):
     yield st, g.fields[0]
 
 
+def M_bytes_index_range(it, ctx, args, st):
+    """<[u8] as Index<Range*>>::index on a bounded byte slice: every range kind, panicking when out of bounds"""
+    s = sval(st, args[0])
+    r = args[1]
+    k = ctx.callee.key
+    if 'RangeToInclusive' in k:
+        a, b = bv(0), r.fields[0] + 1
+    elif 'RangeInclusive' in k:
+        a, b = r.fields[0], r.fields[1] + 1
+    elif 'RangeTo' in k:
+        a, b = bv(0), r.fields[0]
+    elif 'RangeFrom' in k:
+        a, b = r.fields[0], s.len
+    elif 'RangeFull' in k:
+        yield st, args[0]
+        return
+    else:
+        a, b = r.fields[0], r.fields[1]
+    for s2, good in fork_bool(it, st, z3.And(z3.ULE(a, b), z3.ULE(b, s.len))):
+        if good:
+            yield s2, s2.ref(bstr_slice(s, a, b))
+        else:
+            yield s2, Panic('range index out of range for slice', ctx.fr.fn.name)
+
+
+def M_slice_split_at(it, ctx, args, st):
+    s = sval(st, args[0])
+    if not isinstance(s, BStr):
+        raise Unsupported('split_at on a non-byte slice')
+    mid = args[1]
+    for s2, ok in fork_bool(it, st, z3.ULE(mid, s.len)):
+        if ok:
+            yield s2, Agg('tuple', (s2.ref(bstr_slice(s, bv(0), mid)), s2.ref(bstr_slice(s, mid, s.len))))
+        else:
+            yield s2, Panic('mid > len in split_at', ctx.fr.fn.name)
+
+
+def M_iter_zip(it, ctx, args, st):
+    a = as_iter(it, st, itval(st, args[0]) if isinstance(args[0], Ptr) else args[0])
+    b = args[1]
+    b = st.deref_all(b) if isinstance(b, Ptr) else b
+    yield st, It('zip2', (a, as_iter(it, st, b)))
+
+
+def it_next_zip2(it, st, itv, fr):
+    kind, src, f, pos, cur = itv.fields
+    a, b = src
+    for s2, a2, x in it_next(it, st, a, fr):
+        if x is None:
+            yield s2, It('zip2', (a2, b)), None
+            continue
+        for s3, b2, y in it_next(it, s2, b, fr):
+            if y is None:
+                yield s3, It('zip2', (a2, b2)), None
+            else:
+                yield s3, It('zip2', (a2, b2)), Agg('tuple', (x, y))
+
+
+EXTRA_ITER_KINDS['zip2'] = it_next_zip2
+
+
 def M_refcell_replace(it, ctx, args, st):
     """RefCell::replace(&self, v) -> old value;  RefCell::take / set likewise (borrow flags are not modelled)"""
     cell = Ptr(args[0].addr, args[0].proj + (('f', 0),))
@@ -1756,6 +1817,14 @@ def render_display(it, ctx, ty, v, st):
         return val
     if isinstance(val, Agg) and len(val.fields) >= 1 and isinstance(val.fields[0], BStr) and ty is not None and last_seg(strip_refs(ty)[1]) in ('String', 'str'):
         return val.fields[0]
+    if z3.is_expr(val) and z3.is_bool(val):
+        return BStr(tuple(z3.If(val, z3.BitVecVal(a, 8), z3.BitVecVal(b, 8)) for a, b in zip(b'true\0', b'false')), z3.If(val, bv(4), bv(5)))
+    if z3.is_expr(val) and z3.is_bv(val) and ty is not None and strip_refs(ty)[0] == 'path' and strip_refs(ty)[1] in INT_BITS:
+        ctx2 = type('C', (), {'self_ty': strip_refs(ty)})()
+        outs = list(M_int_to_string(it, ctx2, [val], st))
+        return outs[0][1]
+    if z3.is_expr(val) and z3.is_fp(val):
+        return Agg('DisplayText', (val,))
     raise Unsupported(f'Display of {ty_str(ty) if ty else "?"} inside format! is not modelled')
 
 
@@ -1928,7 +1997,7 @@ MODELS = [
     (P + r'vec::Vec::<.*>::(?:new|with_capacity)', M_vec_new), (P + r'vec::Vec::<.*>::extend_from_slice', M_vec_extend_from_slice), (P + r'vec::Vec::<.*>::len', M_vec_len), (P + r'vec::Vec::<.*>::is_empty', M_vec_is_empty),
     (P + r'vec::Vec::<.*>::push', M_vec_push),
     (r'<' + P + r'vec::Vec<.*> as ' + P + r'ops::Deref(Mut)?>::deref(_mut)?', M_vec_deref),
-    (P + r'cell::RefCell::<.*>::borrow(_mut)?', M_refcell_borrow), (P + r'cell::RefCell::<.*>::new', M_refcell_new), (P + r'cell::RefCell::<.*>::replace', M_refcell_replace), (P + r'str::<impl str>::strip_prefix::<char>', M_strip_prefix_char),
+    (P + r'cell::RefCell::<.*>::borrow(_mut)?', M_refcell_borrow), (P + r'cell::RefCell::<.*>::new', M_refcell_new), (P + r'cell::RefCell::<.*>::replace', M_refcell_replace), (P + r'slice::<impl \[u8\]>::split_at', M_slice_split_at), (ITER + r'zip::<.*>', M_iter_zip), (r'<\[u8\] as ' + P + r'ops::Index<' + P + r'ops::Range\w*(?:<usize>)?>>::index', M_bytes_index_range), (P + r'str::<impl str>::strip_prefix::<char>', M_strip_prefix_char),
     (r'<' + P + r'cell::Ref(Mut)?<.*> as ' + P + r'ops::Deref(Mut)?>::deref(_mut)?', M_guard_deref),
     (P + r'boxed::Box::<.*>::new_uninit', M_box_new_uninit), (P + r'boxed::box_assume_init_into_vec_unsafe::<.*>', M_box_assume_init_into_vec),
     (P + r'boxed::Box::<.*>::new', M_box_new), (P + r'sync::Arc::<.*>::new', M_arc_new),
